@@ -6,7 +6,7 @@ import ast
 from ..cfg import cfg_of
 from ..locks import accesses
 from ..model import AnalysisError, NotConst, dotted, norm, walk_own
-from .common import find_calls, guards_of, key_of, leads_only_to_raise, mentions, str_template, template_text
+from .common import find_calls, guards_of, key_of, leads_only_to_raise, mentions, resolve_locals, str_template, template_text
 
 EXPLANATION = (
     "Taint / dominance analysis of the response head. All writers of Task.status and Task.response_headers in the "
@@ -23,11 +23,36 @@ EXPLANATION = (
 HOP = {"connection", "keep-alive", "proxy-authenticate", "proxy-authorization", "te", "trailer", "transfer-encoding", "upgrade"}
 
 
+class _MethodView:
+    """A method standing in for the closure: the same function with `self` left out of the parameter list."""
+
+    def __init__(self, f):
+        self.__dict__["_f"] = f
+
+    def __getattr__(self, k):
+        if k == "params":
+            return self._f.params[1:]
+        return getattr(self._f, k)
+
+
 def _closure(ctx):
-    f = ctx.p.func("task.WSGITask.execute.start_response") if "task.WSGITask.execute.start_response" in ctx.p.functions else None
-    if f is None:
-        raise AnalysisError("anchor vanished: the start_response closure in WSGITask.execute")
-    return f, cfg_of(f)
+    """The callable the application receives as start_response: the closure of WSGITask.execute, or - when somebody
+    turned it into a method - the method whose bound form execute() hands over."""
+    p = ctx.p
+    f = p.functions.get("task.WSGITask.execute.start_response")
+    if f is not None:
+        return f, cfg_of(f)
+    ex = p.func("task.WSGITask.execute")
+    for c in ast.walk(ex.node):
+        if isinstance(c, ast.Call) and (dotted(c.func) or "").endswith(".application") and len(c.args) == 2:
+            a = c.args[1]
+            src = resolve_locals(ex, a) if isinstance(a, ast.Name) else a
+            if isinstance(src, ast.Attribute) and isinstance(src.value, ast.Name) and src.value.id == ex.params[0] and ex.cls is not None:
+                for k in ex.cls.mro:
+                    m = k.methods.get(src.attr)
+                    if m is not None and not m.is_staticmethod and not m.is_classmethod and len(m.params) >= 3:
+                        return _MethodView(m), cfg_of(m)
+    raise AnalysisError("anchor vanished: the start_response callable handed to the application by WSGITask.execute")
 
 
 def _raising_tests(g, var):
@@ -148,7 +173,7 @@ def rule_r1(ctx):
             ctx.r.ok(rid, "the validation loop is only left by exhaustion or by raising", f.loc(lp.ast))
     # enumerate all writers in the package
     task = p.cls("task.Task")
-    allowed = {"task.WSGITask.execute.start_response", "task.ErrorTask.execute", "task.Task.build_response_header", "task.Task.set_close_on_finish",
+    allowed = {"task.WSGITask.execute.start_response", _closure(ctx)[0].qual, "task.ErrorTask.execute", "task.Task.build_response_header", "task.Task.set_close_on_finish",
                "task.Task.remove_content_length_header", "task.Task.__init__"}
     n = 0
     for attr in ("status", "response_headers"):
@@ -420,6 +445,8 @@ RULES = [rule_r1, rule_r2, rule_r3, rule_r4, rule_r5, rule_r6, rule_r7, rule_r8]
 from ..selftest import M, T, V  # noqa: E402
 
 selftest = [
+    M("refusal-swallowed", "task.py", "            self.finish()\n        except OSError:", "            self.finish()\n        except (OSError, ValueError):", "R8"),
+    T("oserror-tuple", "task.py", "            self.finish()\n        except OSError:", "            self.finish()\n        except (OSError,):"),
     M("status-cr-dropped", "task.py", 'if "\\n" in status or "\\r" in status:', 'if "\\n" in status:', "R1"),
     M("value-cr-dropped", "task.py", 'if "\\n" in v or "\\r" in v:', 'if "\\n" in v:', "R1"),
     M("name-unchecked", "task.py", '                if "\\n" in k or "\\r" in k:\n                    raise ValueError(\n                        "carriage return/line feed character present in header name"\n                    )\n', "", "R1"),
